@@ -56,6 +56,10 @@ def run(tier, seed):
     for sd in (101444, 101445, 101446):
         runs.append({"args": ["--workload", "mt", "--rounds", "2", "--scale", "4", "--recover", "1", "--fault", "3", "--kind", "3", "--persist"],
                      "env": SETTINGS[3][1], "tag": "mt.noarena.protect", "build": "dbg", "seed": sd})
+    # the scenario in which the first page of a fresh segment could not be committed and the empty segment was kept for good (fixed in /repo a0a66cd), pinned
+    for k in (4, 5):
+        runs.append({"args": ["--workload", "mt", "--rounds", "2", "--scale", "4", "--recover", "1", "--fault", str(k), "--persist"],
+                     "env": SETTINGS[3][1], "tag": "mt.noarena.persist", "build": "rel", "seed": 201290})
     vlib.log("  %d fault runs (%d OS-call positions in the dry runs)" % (len(runs), positions))
     return osfam.run_os("C07", tier, seed, runs, builds=builds, own_guards=GUARDS, crash_decisive=True, group=(24 if q else 40),
                         level="fault_enumeration",
